@@ -89,10 +89,10 @@ _WIDE = st.characters(blacklist_categories=("Cs", "Cc", "Cn"), blacklist_charact
 _frag_value = st.lists(st.one_of(st.sampled_from(FRAGS), st.text(alphabet=_SAFE, max_size=5)), min_size=1,
                        max_size=6).map("".join)
 _value = st.one_of(
-    _frag_value, _frag_value, _frag_value,
-    st.sampled_from(ADVERSARIAL),
+    _frag_value, _frag_value, _frag_value, _frag_value, _frag_value,
+    st.sampled_from(ADVERSARIAL), st.sampled_from(ADVERSARIAL),
     st.text(alphabet=_WIDE, max_size=12),
-    st.builds(lambda s, n: (s * n)[:3000], st.sampled_from(FRAGS[:20] + ["ab", "x'y"]), st.integers(150, 1500)),
+    st.builds(lambda s, n: (s * n)[:2000], st.sampled_from(FRAGS[:20] + ["ab", "x'y"]), st.integers(150, 1000)),
 )
 KEYWORDS_IN_VALUES = ("RETURN", "MATCH", "DELETE", "DETACH", " OR ", "WHERE", "SET ", "CALL")
 
